@@ -452,7 +452,7 @@ def main(argv):
     if prop not in PROPS:
         print("unknown property", prop)
         return 2
-    profiles = ("dev", "release") if (prop == "C16" or tier == "thorough") else ("dev",)
+    profiles = ("dev", "release")
     lean = lean_obligations(prop, thorough=(tier == "thorough"))
     res = pipeline.build_and_run(tier, seed, profiles)
     findings, cov = evaluate(prop, res)
